@@ -105,6 +105,31 @@ def run(ctx):
         except Exception as ex:
             spec_fail.append((kind, "both storage formats can be evaluated", {"norb": norb, "nelec": ne, "error": repr(ex)[:300]}))
     evals += fmt_cases
+    # ---- global (gather/scatter) reconfiguration: both storage formats, same key, equal spin blocks
+    from ad_afqmc import config, propagation
+    for rep in range(3):
+        try:
+            norb, k, n = 4, 2, 6
+            W = wf.walkers(rng, norb, (k, k), n, restricted=True)
+            wts = jnp.array([rng.choice([0.25, 0.5, 1.0, 2.0, 3.5]) for _ in range(n)])
+            key = jr.PRNGKey(rng.randrange(1 << 30))
+            pr = propagation.propagator_restricted(n_walkers=n)
+            pu = propagation.propagator_unrestricted(n_walkers=n)
+            dr = pr.stochastic_reconfiguration_global({"walkers": W, "weights": wts, "key": key}, config.not_a_comm())
+            du = pu.stochastic_reconfiguration_global({"walkers": [W, W], "weights": wts, "key": key}, config.not_a_comm())
+            evals += 2
+            same_key = np.array_equal(np.array(jr.key_data(dr["key"]) if hasattr(jr, "key_data") else dr["key"]),
+                                      np.array(jr.key_data(du["key"]) if hasattr(jr, "key_data") else du["key"]))
+            if not same_key:
+                spec_fail.append(("stochastic_reconfiguration_global", "restricted and unrestricted containers leave the run in the same random-number state",
+                                  {"restricted_key": np.array(dr["key"]).tolist(), "unrestricted_key": np.array(du["key"]).tolist()}))
+            if np.abs(np.array(du["walkers"][0]) - np.array(dr["walkers"])).max() > 0 or np.abs(np.array(du["walkers"][1]) - np.array(dr["walkers"])).max() > 0 \
+                    or np.abs(np.array(du["weights"]) - np.array(dr["weights"])).max() > 0:
+                spec_fail.append(("stochastic_reconfiguration_global", "restricted and unrestricted containers select the same walkers with the same weights", {}))
+            if np.array_equal(np.array(dr["key"]), np.array(key)) or np.array_equal(np.array(du["key"]), np.array(key)):
+                spec_fail.append(("stochastic_reconfiguration_global", "the random-number state advances (the same comb offset is never reused)", {}))
+        except Exception as ex:
+            spec_fail.append(("stochastic_reconfiguration_global", "global reconfiguration runs for both containers", {"error": repr(ex)[:300]}))
     # ---- propagate / _apply_trotprop: permutation and batch count
     for wt, tk, ne in (("restricted", "rhf", (2, 2)), ("unrestricted", "uhf", (2, 1))):
         seed = rng.randrange(1 << 30)
